@@ -103,12 +103,13 @@ Proof.
 Qed.
 
 (* what a statement of the program becomes in the placed list *)
-Definition is_repeat (s : stmt) : bool := match s with Repeat _ _ | Include _ _ => true | _ => false end.
+Definition is_repeat (s : stmt) : bool := match s with Repeat _ _ | Include _ _ _ => true | _ => false end.
 
 (* [cnt ce k]: the count expression ce of a .repeat stands for k copies.
    The two booleans: the link base has been fixed before / after the statements.  Only the `. = e` met while the
    base is not fixed becomes a silent Link (flat_base); a .link is only met then (flat_link; a second one is an
-   error); later `. = e` stay skips (flat_skip).  Repeat bodies and included files never fix the base. *)
+   error); later `. = e` stay skips (flat_skip).  Repeat bodies and included files (own = true) never fix the base; a file
+   linked after the program file (own = false) may. *)
 Definition is_base (s : stmt) : bool := match s with Link _ | Skip _ => true | _ => false end.
 
 Inductive flat (cnt : expr -> nat -> Prop) : bool -> list stmt -> list stmt -> bool -> Prop :=
@@ -120,14 +121,15 @@ Inductive flat (cnt : expr -> nat -> Prop) : bool -> list stmt -> list stmt -> b
 | flat_rep b b' ce body copies r r' :
     cnt ce (length copies) ->
     Forall (fun c => flat cnt b body c b) copies -> flat cnt b r r' b' -> flat cnt b (Repeat ce body :: r) (concat copies ++ r') b'
-| flat_inc b b' fid body d r r' :
-    flat cnt b (cut_end body) d b -> flat cnt b r r' b' -> flat cnt b (Include fid body :: r) (d ++ r') b'.
+| flat_inc b b1 b' own fid body d r r' :
+    flat cnt b (cut_end body) d b1 -> (own = true -> b1 = b) -> flat cnt b1 r r' b' ->
+    flat cnt b (Include own fid body :: r) (d ++ r') b'.
 
 Lemma flat_app cnt b a a' b1 : flat cnt b a a' b1 -> forall c c' b2, flat cnt b1 c c' b2 -> flat cnt b (a ++ c) (a' ++ c') b2.
 Proof.
   induction 1; intros c c' b2 Hc; simpl; try assumption; try (constructor; auto; fail).
   - rewrite <- app_assoc. constructor; auto.
-  - rewrite <- app_assoc. constructor; auto.
+  - rewrite <- app_assoc. econstructor; eauto.
 Qed.
 
 Record Ext (st st' : lstate) (d : list item) : Prop := mkExt {
@@ -237,7 +239,7 @@ Qed.
 
 Lemma stmt_ind2 (P : stmt -> Prop) :
   (forall ce body, Forall P body -> P (Repeat ce body)) ->
-  (forall fid body, Forall P body -> P (Include fid body)) ->
+  (forall own fid body, Forall P body -> P (Include own fid body)) ->
   (forall s, is_repeat s = false -> P s) -> forall s, P s.
 Proof.
   intros Hr Hi Ho. fix IH 1. intros s. destruct s; try (apply Ho; reflexivity).
@@ -286,10 +288,10 @@ Proof.
     match goal with |- xbind ?a _ = xbind ?a _ => destruct a; simpl; auto end; rewrite IH; reflexivity.
 Qed.
 
-Lemma lay_stmt_include fid body st :
-  lay_stmt false (Include fid body) st =
+Lemma lay_stmt_include own fid body st :
+  lay_stmt false (Include own fid body) st =
   xbind (lay_list false (cut_end body)
-           (mkL (l_addr st) fid 0 (l_labels st) (l_ddots st) (l_based st) true)) (fun r =>
+           (mkL (l_addr st) fid 0 (l_labels st) (l_ddots st) (l_based st) (own || l_inc st))) (fun r =>
   XOk (mkL (l_addr (fst r)) (l_file st) (l_scope st) (l_labels (fst r)) (l_ddots (fst r)) (l_based (fst r)) (l_inc st), snd r)).
 Proof. cbn [Asm.lay_stmt]. rewrite lay_file_eq. reflexivity. Qed.
 
@@ -363,7 +365,7 @@ Proof. induction 1 as [|x r Hx _ IH]; simpl; [constructor|]. destruct x; constru
 
 Lemma lay_stmt_ext s : stmt_ext s.
 Proof.
-  induction s as [ce body IH | fid body IH | s Hs] using stmt_ind2; intros inrep st st' d H.
+  induction s as [ce body IH | own fid body IH | s Hs] using stmt_ind2; intros inrep st st' d H.
   - rewrite lay_stmt_repeat in H. xinv H.
     destruct (iter_ext _ IH _ _ _ _ H) as [I2 [B2 [cs [L [-> [E F]]]]]]. split; [exact E|]. split; [|auto].
     rewrite map_concat, B2. rewrite <- (app_nil_r (concat _)). constructor; [| |constructor].
@@ -371,9 +373,10 @@ Proof.
     + rewrite Forall_map. exact F.
   - destruct inrep; [discriminate|]. rewrite lay_stmt_include in H. xinv H. destruct a as [s1 d1]. simpl in H. inversion H; subst.
     destruct (lay_list_ext _ (Forall_cut_end _ _ IH) _ _ _ _ Ha) as [E [F [I1 B1]]]. simpl in *.
-    specialize (B1 (or_intror eq_refl)). split; [eapply Ext_same; [| | | |exact E]; reflexivity|]. split.
-    + rewrite B1. rewrite <- (app_nil_r (map i_stmt d)). constructor; [rewrite B1 in F; exact F|constructor].
-    + split; [reflexivity|]. intros _. exact B1.
+    split; [eapply Ext_same; [| | | |exact E]; reflexivity|]. split.
+    + rewrite <- (app_nil_r (map i_stmt d)). econstructor; [exact F| |constructor].
+      intros ->. apply B1. right. reflexivity.
+    + split; [reflexivity|]. intros [C|C]; [discriminate|]. apply B1. right. rewrite C. apply orb_true_r.
   - rewrite lay_stmt_leaf in H by exact Hs.
     destruct (lay_leaf_ext _ _ _ _ _ H) as [it [-> [E _]]]. destruct (lay_leaf_based _ _ _ _ _ H) as [I1 [B1 F1]].
     split; [exact E|]. split; [exact F1|]. split; [exact I1|exact B1].
